@@ -450,11 +450,26 @@ func ClassifyV2(prefix string, p *Prepared, rc *ref.Case, rq Request, k ref.Tri,
 	case kind == "object" && k == ref.T && !o.Allowed && p.Ref.ReachesRecursion(typ, rq.Relation):
 		return prefix + "-" + FindingV2SharedVisited
 	case kind == "userset" && k == ref.T && !o.Allowed:
+		uo, ur := ref.UserParts(rq.User)
+		ut, _ := ref.SplitObject(uo)
+		if !V2UsersetSubjectShortcut(p.Ref, typ, rq.Relation, ut, ur) {
+			return ""
+		}
 		return prefix + "-v2-userset-subject-silent-divergence"
 	case kind == "userset" && k == ref.F && o.Allowed && HasExclusion(p.Ref, typ, rq.Relation):
 		return prefix + "-v2-userset-subject-allowed-under-exclusion"
 	}
 	return ""
+}
+
+// V2UsersetSubjectShortcut is the structural part of the listed finding "v2-userset-subject-silent-divergence":
+// the weighted-graph engine answers a userset subject T#r by a direct tuple lookup where the edge to T#r is
+// not part of a cycle (it expands stored usersets only on recursive / tuple-cycle edges), and it does not
+// see T#r when the target contains it by rewrite rules alone (computed userset, tuple-to-userset). A denial
+// of a permitted userset subject is attributed to the finding only where one of the two shapes is on the
+// way from the target relation; a denial on purely cyclic direct edges is not the listed defect.
+func V2UsersetSubjectShortcut(m *ref.Model, typ, rel, subjType, subjRel string) bool {
+	return m.HasAcyclicDirectEdgeTo(typ, rel, subjType, subjRel) || m.ReachesByRewrite(typ, rel, subjType, subjRel)
 }
 
 // ClassifyListUsersError attributes an unexpected ListUsers error to a known finding ("" if none).
